@@ -161,3 +161,89 @@ func H_C17_Calls() {
 	}
 	vrt.Reach("calls/end")
 }
+
+// H_C17_DirectIOSync: the direct I/O log together with synchronous appends refuses every mutation (the appender
+// cannot force a partly filled block to disk): a refused Put or Delete then has no effect - not directly, not
+// after a kill, not after a clean restart. (Where the file system has no direct I/O the option falls back to
+// buffered writes and the calls are accepted: then they take effect.)
+func H_C17_DirectIOSync() {
+	vrt.RandPromoteBudget(0)
+	h := vNewDBEnvU(vUniverse[:2])
+	defer h.fs.Cleanup()
+	base := []ExtraOption{MemstoreSizeBytes(math.MaxUint64), WriteBufferSizeBytes(64), ReadBufferSizeBytes(64)}
+	vrt.Assert(h.open(base...) == nil, "db/open-no-error")
+	h.put(vUniverse[0], []byte{vrt.Byte("v0")})
+	h.close()
+	vrt.Assert(h.open(append([]ExtraOption{EnableDirectIOWAL()}, base...)...) == nil, "directio/open-no-error")
+	str := vrt.Choose("flavour", 2) == 1
+	n := vrt.Range("calls", 1, 2)
+	for i := 0; i < n; i++ {
+		key := vUniverse[vrt.Choose("key"+string(rune('0'+i)), 2)]
+		var err error
+		if vrt.Choose("op"+string(rune('0'+i)), 2) == 0 {
+			val := []byte{vrt.Byte("w" + string(rune('0'+i)))}
+			if str {
+				err = h.db.Put(string(key), string(val))
+			} else {
+				err = h.db.PutBytes(key, val)
+			}
+			if err == nil {
+				r := h.refOf(key)
+				if r == nil {
+					r = &vRef{key: key}
+					h.ref = append(h.ref, r)
+				}
+				r.val, r.present = val, true
+			}
+		} else {
+			if str {
+				err = h.db.Delete(string(key))
+			} else {
+				err = h.db.DeleteBytes(key)
+			}
+			if err == nil {
+				if r := h.refOf(key); r != nil {
+					r.val, r.present = nil, false
+				}
+			}
+		}
+		if err != nil {
+			vrt.Reach("directio/call-refused")
+		}
+		vrt.TraceBool("err"+string(rune('0'+i)), err != nil)
+	}
+	for _, k := range vUniverse[:2] {
+		if h.refOf(k) == nil {
+			h.ref = append(h.ref, &vRef{key: k})
+		}
+	}
+	h.checkReads("directio/reads-directly")
+	if vrt.Choose("end", 2) == 0 {
+		img, idir := h.stopImage()
+		h2 := &vDB{fs: img, dir: idir, ref: h.ref}
+		oerr := h2.open(base...)
+		if oerr != nil {
+			vrt.Note("open after kill: " + oerr.Error())
+		}
+		vrt.Assert(oerr == nil, "directio/open-after-kill-succeeds")
+		if oerr == nil {
+			h2.checkReads("directio/reads-after-kill-and-recovery")
+			if !vrt.Symbolic() {
+				h2.close()
+			}
+		}
+		if !vrt.Symbolic() {
+			img.Cleanup()
+			h.close()
+		}
+	} else {
+		h.close()
+		oerr := h.open(base...)
+		vrt.Assert(oerr == nil, "directio/clean-reopen-succeeds")
+		if oerr == nil {
+			h.checkReads("directio/reads-after-clean-restart")
+			h.close()
+		}
+	}
+	vrt.Reach("directio/end")
+}
